@@ -364,3 +364,31 @@ func namedTypePkg(t types.Type) string {
 }
 
 func typesPtr(t types.Type) types.Type { return types.NewPointer(t) }
+
+// retVal: the i-th result of a return, looking through the spill of results into a local cell that go/ssa
+// introduces for functions with defer (store to the cell, rundefers, load, return).
+func retVal(r *ssa.Return, i int) ssa.Value {
+	v := r.Results[i]
+	l, ok := v.(*ssa.UnOp)
+	if !ok || l.Op != token.MUL {
+		return v
+	}
+	a, ok := l.X.(*ssa.Alloc)
+	if !ok {
+		return v
+	}
+	// last store to the cell before the load in the same block
+	var last ssa.Value
+	for _, in := range l.Block().Instrs {
+		if in == ssa.Instruction(l) {
+			break
+		}
+		if st, ok := in.(*ssa.Store); ok && st.Addr == ssa.Value(a) {
+			last = st.Val
+		}
+	}
+	if last != nil {
+		return last
+	}
+	return v
+}
